@@ -1396,3 +1396,384 @@ Proof.
   destruct (t_root T) as [r|]; [|reflexivity]. cbn [option_map].
   rewrite encode_root_bump; [reflexivity|]. apply Hstep. reflexivity.
 Qed.
+
+(* ====================================================================== *)
+(* Part 5: the true bound on the growth when the root gains a step:          *)
+(* one byte per entry of the r128 rank index of the presence bitmap + 9.     *)
+(* ====================================================================== *)
+Section Growth.
+Local Open Scope N_scope.
+
+Lemma size_var_mono : forall f a b, a <= b -> size_var f a <= size_var f b.
+Proof.
+  induction f as [|f IH]; intros a b H; cbn [size_var]; [lia|].
+  destruct (N.ltb_spec a 128), (N.ltb_spec b 128); try lia.
+  assert (a / 128 <= b / 128) as Hq by (apply N.div_le_mono; lia). specialize (IH _ _ Hq). lia.
+Qed.
+
+Lemma size_var_fuel : forall f x, size_var f x <= size_var (S f) x.
+Proof.
+  induction f as [|f IH]; intros x; [cbn; destruct (x <? 128); lia|].
+  change (size_var (S (S f)) x) with (if x <? 128 then 1 else 1 + size_var (S f) (x / 128)).
+  change (size_var (S f) x) with (if x <? 128 then 1 else 1 + size_var f (x / 128)).
+  destruct (x <? 128); [lia|]. specialize (IH (x / 128)). lia.
+Qed.
+
+Lemma sv_grow x d : d <= 127 * x + 127 -> size_varint (x + d) <= size_varint x + 1.
+Proof.
+  intros H. unfold size_varint.
+  etransitivity; [apply (size_var_mono 10 (x + d) (128 * x + 127)); lia|].
+  change (size_var 10 (128 * x + 127)) with (if 128 * x + 127 <? 128 then 1 else 1 + size_var 9 ((128 * x + 127) / 128)).
+  destruct (N.ltb_spec (128 * x + 127) 128).
+  - pose proof (size_var_le 10 x). destruct (N.ltb_spec x 128); cbn [size_var]; lia.
+  - replace ((128 * x + 127) / 128) with x by lia. pose proof (size_var_fuel 9 x). lia.
+Qed.
+
+Lemma sv_mono a b : a <= b -> size_varint a <= size_varint b.
+Proof. apply size_var_mono. Qed.
+
+Lemma size_var_odd : forall f v, size_var f (2 * v + 1) = size_var f (2 * v).
+Proof.
+  induction f as [|f IH]; intros v; cbn [size_var]; [reflexivity|].
+  destruct (N.ltb_spec (2 * v + 1) 128), (N.ltb_spec (2 * v) 128); try lia.
+  replace ((2 * v + 1) / 128) with (2 * v / 128) by lia. reflexivity.
+Qed.
+
+Lemma sv_pos x : 1 <= size_varint x.
+Proof. unfold size_varint. cbn [size_var]. destruct (x <? 128); lia. Qed.
+
+Lemma sz_lenfield_grow tag n d : d <= 127 * n + 127 -> sz_lenfield tag (n + d) <= sz_lenfield tag n + d + 1.
+Proof. unfold sz_lenfield. intros H. pose proof (sv_grow n d H). lia. Qed.
+
+Lemma sz_lenfield_mono tag a b : a <= b -> sz_lenfield tag a <= sz_lenfield tag b.
+Proof. unfold sz_lenfield. intros H. pose proof (sv_mono a b H). lia. Qed.
+
+End Growth.
+
+(* ---------- the rank index when the first bit is set ---------- *)
+Lemma rank128_shift : forall n cs acc, length cs <= n -> rank128 (S acc) cs = map S (rank128 acc cs).
+Proof.
+  induction n as [|n IH]; intros cs acc Hn.
+  - destruct cs; [reflexivity|cbn in Hn; lia].
+  - destruct cs as [|c1 [|c2 r]]; [reflexivity|reflexivity|].
+    cbn [rank128 map]. f_equal. cbn [length] in Hn. rewrite <- IH by lia. reflexivity.
+Qed.
+
+Lemma chunks64_cons b0 H :
+  chunks64 (b0 :: H) = (b0 :: firstn 63 H) :: chunks (length H) (skipn 63 H).
+Proof. reflexivity. Qed.
+
+Lemma rank128_first_bit c rest :
+  exists tl, rank128 0 ((false :: c) :: rest) = 0 :: tl /\ rank128 0 ((true :: c) :: rest) = 0 :: map S tl.
+Proof.
+  destruct rest as [|c2 r].
+  - exists []. split; reflexivity.
+  - exists (rank128 (count_true c + count_true c2) r). cbn [rank128 count_true Nat.add]. split; [reflexivity|].
+    f_equal. apply (rank128_shift (length r)). lia.
+Qed.
+
+Section Delta.
+Local Open Scope N_scope.
+
+Lemma bits_val_cons b c : bits_val (b :: c) = (if b then 1 else 0) + 2 * bits_val c.
+Proof. reflexivity. Qed.
+
+Lemma sum_sv_succ : forall tl : list nat,
+  Forall (fun x => N.of_nat x + 1 < two64) tl ->
+  sum_N (map size_varint (map u64_of_int32 (map Z.of_nat (map S tl)))) <=
+  sum_N (map size_varint (map u64_of_int32 (map Z.of_nat tl))) + N.of_nat (length tl).
+Proof.
+  induction 1 as [|x tl Hx _ IH]; [cbn; lia|].
+  cbn [map sum_N length]. rewrite !u64_of_nat by lia.
+  replace (N.of_nat (S x)) with (N.of_nat x + 1) by lia.
+  pose proof (sv_grow (N.of_nat x) 1 ltac:(lia)). lia.
+Qed.
+
+Lemma sum_sv_ge_len vs : N.of_nat (length vs) <= sum_N (map size_varint vs).
+Proof. induction vs as [|v vs IH]; [cbn; lia|]. cbn [map sum_N length]. pose proof (sv_pos v). lia. Qed.
+
+Lemma mk_bm_first_bit H :
+  N.of_nat (length H) + 2 < two64 ->
+  let R := N.of_nat (length (rank128 0 (chunks64 (false :: H)))) in
+  size_bitmap (mk_bm true (true :: H)) <= size_bitmap (mk_bm true (false :: H)) + R /\
+  R <= size_bitmap (mk_bm true (false :: H)) /\
+  length (rank128 0 (chunks64 (true :: H))) = length (rank128 0 (chunks64 (false :: H))).
+Proof.
+  intros Hlen. cbv zeta. unfold mk_bm. rewrite !chunks64_cons.
+  set (c := firstn 63 H). set (rest := chunks (length H) (skipn 63 H)).
+  destruct (rank128_first_bit c rest) as (tl & E0 & E1). rewrite E0, E1.
+  assert (Forall (fun x => (x <= length H + 1)%nat) (0%nat :: tl)) as Hb.
+  { rewrite <- E0. destruct (rank128_facts (length ((false :: c) :: rest)) ((false :: c) :: rest) 0 (le_n _)) as [_ Hf].
+    eapply Forall_impl; [|exact Hf]. cbn beta. intros x Hx.
+    pose proof (chunks64_total (false :: H)) as Ht. rewrite chunks64_cons in Ht. fold c rest in Ht. cbn [length] in Ht. lia. }
+  inversion Hb as [|? ? _ Hb']; subst.
+  unfold size_bitmap. cbn [bm_words bm_rank bm_select bm_unk map].
+  change (sz_packed 40 []) with 0. change (blen []) with 0. rewrite !N.add_0_r.
+  unfold sz_packed. cbn [map sum_N].
+  rewrite !bits_val_cons. rewrite (N.add_comm 1 (2 * bits_val c)). rewrite N.add_0_l.
+  unfold size_varint at 1. rewrite size_var_odd. fold (size_varint (2 * bits_val c)).
+  set (wsum := size_varint (2 * bits_val c) + sum_N (map size_varint (map bits_val rest))).
+  set (S0 := sum_N (map size_varint (map u64_of_int32 (map Z.of_nat tl)))).
+  set (S1 := sum_N (map size_varint (map u64_of_int32 (map Z.of_nat (map S tl))))).
+  assert (S1 <= S0 + N.of_nat (length tl)) as HS.
+  { apply sum_sv_succ. eapply Forall_impl; [|exact Hb']. cbn beta. intros x Hx. lia. }
+  assert (N.of_nat (length tl) <= S0) as HL.
+  { unfold S0. etransitivity; [|apply sum_sv_ge_len]. rewrite !map_length. lia. }
+  change (u64_of_int32 (Z.of_nat 0)) with 0. change (size_varint 0) with 1.
+  cbn [length]. rewrite map_length.
+  pose proof (sz_lenfield_mono 30 (1 + S1) (1 + S0 + N.of_nat (length tl)) ltac:(lia)) as M1.
+  pose proof (sz_lenfield_grow 30 (1 + S0) (N.of_nat (length tl)) ltac:(lia)) as M2.
+  assert (1 + S0 <= sz_lenfield 30 (1 + S0)) as M3 by (unfold sz_lenfield; lia).
+  repeat split; try lia.
+Qed.
+
+Lemma sz_int32_succ tag m :
+  N.of_nat m + 1 < two64 -> size_varint (tag * 8) <= 1 ->
+  sz_int32 tag (Z.of_nat (S m)) <= sz_int32 tag (Z.of_nat m) + 2.
+Proof.
+  intros Hm Ht. unfold sz_int32.
+  destruct (Z.eqb_spec (Z.of_nat (S m)) 0); [lia|].
+  rewrite u64_of_nat by lia. replace (N.of_nat (S m)) with (N.of_nat m + 1) by lia.
+  destruct (Z.eqb_spec (Z.of_nat m) 0) as [E|E].
+  - assert (m = 0%nat) as -> by lia. change (size_varint (N.of_nat 0 + 1)) with 1. lia.
+  - rewrite u64_of_nat by lia. pose proof (sv_grow (N.of_nat m) 1 ltac:(lia)). lia.
+Qed.
+
+Lemma sz_bytes_two (a b : byte) X : sz_bytes 30 (a :: b :: X) <= sz_bytes 30 X + 5.
+Proof.
+  unfold sz_bytes. destruct X as [|x X'].
+  - vm_compute. discriminate.
+  - set (L := x :: X'). unfold blen. cbn [length].
+    replace (N.of_nat (S (S (length L)))) with (N.of_nat (length L) + 2) by lia.
+    pose proof (sz_lenfield_grow 30 (N.of_nat (length L)) 2 ltac:(lia)). lia.
+Qed.
+
+Lemma vlen_delta m X a b pres pres' R :
+  size_bitmap pres' <= size_bitmap pres + R -> R <= size_bitmap pres -> N.of_nat m + 1 < two64 ->
+  size_vlen (mkVlen 0 (Z.of_nat (S m)) None 2 (a :: b :: X) (Some pres') []) <=
+  size_vlen (mkVlen 0 (Z.of_nat m) None 2 X (Some pres) []) + R + 8 /\
+  R <= size_vlen (mkVlen 0 (Z.of_nat m) None 2 X (Some pres) []).
+Proof.
+  intros H1 H2 Hm. unfold size_vlen. cbn [vl_n vl_eltcnt vl_position vl_fixed vl_bytes vl_presence vl_unk].
+  unfold sz_msg.
+  pose proof (sz_int32_succ 11 m Hm ltac:(vm_compute; discriminate)) as F1.
+  pose proof (sz_bytes_two a b X) as F2.
+  pose proof (sz_lenfield_mono 61 _ _ H1) as F3.
+  pose proof (sz_lenfield_grow 61 (size_bitmap pres) R ltac:(lia)) as F4.
+  assert (size_bitmap pres <= sz_lenfield 61 (size_bitmap pres)) as F5 by (unfold sz_lenfield; lia).
+  split; lia.
+Qed.
+
+Lemma enc_delta nb b s' l tl :
+  N.of_nat (length tl) + 2 < two64 ->
+  let i := {| in_big := b; in_step := 0; in_labels := l |} in
+  let i' := {| in_big := b; in_step := S s'; in_labels := l |} in
+  size_slim (enc nb (i' :: tl)) <=
+  size_slim (enc nb (i :: tl)) + N.of_nat (length (rank128 0 (chunks64 (map has_step (i :: tl))))) + 9.
+Proof.
+  intros Hlen. cbv zeta. unfold enc. cbv zeta.
+  set (i := {| in_big := b; in_step := 0; in_labels := l |}).
+  set (i' := {| in_big := b; in_step := S s'; in_labels := l |}).
+  assert (big_count (i' :: tl) = big_count (i :: tl)) as -> by (unfold big_count, i, i'; cbn [filter in_big]; destruct b; reflexivity).
+  assert (forall n, cands (skipn n (i' :: tl)) = cands (skipn n (i :: tl))) as Hc by (intros [|n]; reflexivity).
+  rewrite Hc.
+  set (tbls := sorted_tbls (cands (skipn (big_count (i :: tl)) (i :: tl)))).
+  set (ss := find_short_size tbls). set (mu := most_used tbls ss).
+  assert (flat_map (node_bits ss mu) (i' :: tl) = flat_map (node_bits ss mu) (i :: tl)) as -> by reflexivity.
+  assert (map (fun i0 => match node_short mu i0 with Some _ => true | None => false end) (i' :: tl) =
+          map (fun i0 => match node_short mu i0 with Some _ => true | None => false end) (i :: tl)) as -> by reflexivity.
+  set (F := filter has_step tl). set (H := map has_step tl).
+  assert (filter has_step (i :: tl) = F) as -> by reflexivity.
+  assert (filter has_step (i' :: tl) = i' :: F) as -> by reflexivity.
+  assert (map has_step (i :: tl) = false :: H) as -> by reflexivity.
+  assert (map has_step (i' :: tl) = true :: H) as -> by reflexivity.
+  assert (N.of_nat (length H) + 2 < two64) as HlenH by (unfold H; rewrite map_length; exact Hlen).
+  destruct (mk_bm_first_bit H HlenH) as (B1 & B2 & _). cbv zeta in B1, B2.
+  set (R := N.of_nat (length (rank128 0 (chunks64 (false :: H))))) in *.
+  assert (length F <= length tl)%nat as HF.
+  { unfold F. rewrite length_filter, length_lsum. unfold lsum. clear. induction tl as [|x r IH]; cbn [map sum_list]; [lia|]. destruct (has_step x); lia. }
+  cbn [length flat_map]. unfold i' at 1. cbn [in_step enc_step app].
+  destruct (vlen_delta (length F) (flat_map (fun i0 => enc_step (in_step i0)) F)
+              (byte_of_N (N.of_nat (S s') / 256)) (byte_of_N (N.of_nat (S s')))
+              (mk_bm true (false :: H)) (mk_bm true (true :: H)) R B1 B2 ltac:(lia)) as [V1 V2].
+  unfold size_slim. cbn [s_bigcnt s_shortsize s_nodetype s_inners s_shortbm s_shorttable s_innerpref s_leafpref s_leaves s_unk].
+  unfold sz_msg.
+  pose proof (sz_lenfield_mono 38 _ _ V1) as M1.
+  set (v := size_vlen (mkVlen 0 (Z.of_nat (length F)) None 2 (flat_map (fun i0 => enc_step (in_step i0)) F) (Some (mk_bm true (false :: H))) [])) in *.
+  pose proof (sz_lenfield_grow 38 v (R + 8) ltac:(lia)) as M2.
+  replace (v + R + 8) with (v + (R + 8)) in M1 by lia.
+  lia.
+Qed.
+
+End Delta.
+
+(* ---------- the true bound on the growth under a common prefix ---------- *)
+Definition presence_rank_entries (T : trie) : nat :=
+  match t_root T with
+  | Some r => length (rank128 0 (chunks64 (map has_step (inners r))))
+  | None => 0
+  end.
+
+Lemma presence_rank_entries_le r :
+  128 * length (rank128 0 (chunks64 (map has_step (inners r)))) <= inner_count r + 191.
+Proof.
+  set (bs := map has_step (inners r)).
+  destruct (rank128_facts (length (chunks64 bs)) (chunks64 bs) 0 (le_n _)) as [H _].
+  pose proof (chunks_count (length bs) bs) as H2. fold (chunks64 bs) in H2.
+  unfold bs in H2 at 2. rewrite map_length in H2. unfold inner_count. lia.
+Qed.
+
+Lemma inners_inner id big step pfx fc ch :
+  inners (Inner id big step pfx fc ch) =
+  {| in_big := big; in_step := step; in_labels := map fst ch |}
+    :: flat_map inode_of (List.tl (bfs (Inner id big step pfx fc ch))).
+Proof. reflexivity. Qed.
+
+Lemma inners_bump k id big step pfx fc ch :
+  inners (bump_step k (Inner id big step pfx fc ch)) =
+  {| in_big := big; in_step := k + step; in_labels := map fst ch |}
+    :: flat_map inode_of (List.tl (bfs (Inner id big step pfx fc ch))).
+Proof. unfold inners. rewrite bfs_bump. reflexivity. Qed.
+
+Lemma nb_bump k r : map is_inner (bfs (bump_step k r)) = map is_inner (bfs r).
+Proof. rewrite bfs_bump. destruct r; reflexivity. Qed.
+
+Theorem prefix_delta_bound o P keys T T' :
+  o_inner o = false -> o_leaf o = false ->
+  build o keys None = Ok T -> build o (map (app P) keys) None = Ok T' ->
+  (N.of_nat (length keys) < 67108864)%N ->
+  (marshal_size T' <= marshal_size T + N.of_nat (presence_rank_entries T) + 9)%N.
+Proof.
+  intros Hi Hlf HT HT' Hn.
+  destruct (prefix_same_tree o P keys T T' Hi Hlf HT HT') as (Hr & _).
+  unfold marshal_size, encode_trie, presence_rank_entries. rewrite Hr.
+  destruct (t_root T) as [r|] eqn:Er; cbn [option_map]; [|lia].
+  destruct (built_counts _ _ _ _ HT Er) as (_ & _ & Hc).
+  destruct r as [id ord tail eidx|id big step pfx fc ch]; [cbn [bump_step]; lia|].
+  rewrite !encode_root_enc, nb_bump, inners_bump. unfold inner_count in Hc. rewrite inners_inner in Hc |- *.
+  cbn [length] in Hc.
+  set (nb := map is_inner (bfs (Inner id big step pfx fc ch))).
+  set (tl := flat_map inode_of (List.tl (bfs (Inner id big step pfx fc ch)))) in *.
+  destruct step as [|st].
+  - destruct (2 * length P) as [|k'] eqn:Ek.
+    + cbn [Nat.add]. lia.
+    + rewrite Nat.add_0_r.
+      pose proof (enc_delta nb big k' (map fst ch) tl ltac:(unfold two64; lia)) as H.
+      cbv zeta in H. lia.
+  - rewrite (enc_size_step nb big (S st) (2 * length P + S st) (map fst ch) tl); [lia|].
+    destruct (Nat.eqb_spec (2 * length P + S st) 0); [lia|reflexivity].
+Qed.
+
+(* ---------- ... and the size never shrinks ---------- *)
+Section Lower.
+Local Open Scope N_scope.
+
+Lemma sum_sv_succ_ge : forall tl : list nat,
+  Forall (fun x => N.of_nat x + 1 < two64) tl ->
+  sum_N (map size_varint (map u64_of_int32 (map Z.of_nat tl))) <=
+  sum_N (map size_varint (map u64_of_int32 (map Z.of_nat (map S tl)))).
+Proof.
+  induction 1 as [|x tl Hx _ IH]; [cbn; lia|].
+  cbn [map sum_N]. rewrite !u64_of_nat by lia.
+  pose proof (sv_mono (N.of_nat x) (N.of_nat (S x)) ltac:(lia)). lia.
+Qed.
+
+Lemma mk_bm_first_bit_ge H :
+  N.of_nat (length H) + 2 < two64 ->
+  size_bitmap (mk_bm true (false :: H)) <= size_bitmap (mk_bm true (true :: H)).
+Proof.
+  intros Hlen. unfold mk_bm. rewrite !chunks64_cons.
+  set (c := firstn 63 H). set (rest := chunks (length H) (skipn 63 H)).
+  destruct (rank128_first_bit c rest) as (tl & E0 & E1). rewrite E0, E1.
+  assert (Forall (fun x => (x <= length H + 1)%nat) (0%nat :: tl)) as Hb.
+  { rewrite <- E0. destruct (rank128_facts (length ((false :: c) :: rest)) ((false :: c) :: rest) 0 (le_n _)) as [_ Hf].
+    eapply Forall_impl; [|exact Hf]. cbn beta. intros x Hx.
+    pose proof (chunks64_total (false :: H)) as Ht. rewrite chunks64_cons in Ht. fold c rest in Ht. cbn [length] in Ht. lia. }
+  inversion Hb as [|? ? _ Hb']; subst.
+  unfold size_bitmap. cbn [bm_words bm_rank bm_select bm_unk map].
+  change (sz_packed 40 []) with 0. change (blen []) with 0. rewrite !N.add_0_r.
+  unfold sz_packed. cbn [map sum_N].
+  rewrite !bits_val_cons. rewrite (N.add_comm 1 (2 * bits_val c)). rewrite N.add_0_l.
+  change (size_varint (2 * bits_val c + 1)) with (size_var 10 (2 * bits_val c + 1)). rewrite size_var_odd.
+  change (size_var 10 (2 * bits_val c)) with (size_varint (2 * bits_val c)).
+  apply N.add_le_mono_l. apply sz_lenfield_mono. apply N.add_le_mono_l.
+  apply sum_sv_succ_ge. eapply Forall_impl; [|exact Hb']. cbn beta. intros x Hx. lia.
+Qed.
+
+Lemma sz_int32_succ_ge tag m :
+  N.of_nat m + 1 < two64 -> sz_int32 tag (Z.of_nat m) <= sz_int32 tag (Z.of_nat (S m)).
+Proof.
+  intros Hm. unfold sz_int32.
+  destruct (Z.eqb_spec (Z.of_nat (S m)) 0); [lia|].
+  destruct (Z.eqb_spec (Z.of_nat m) 0); [lia|].
+  rewrite !u64_of_nat by lia. pose proof (sv_mono (N.of_nat m) (N.of_nat (S m)) ltac:(lia)). lia.
+Qed.
+
+Lemma sz_bytes_two_ge (a b : byte) X : sz_bytes 30 X <= sz_bytes 30 (a :: b :: X).
+Proof.
+  unfold sz_bytes. destruct X as [|x X']; [lia|].
+  apply sz_lenfield_mono. unfold blen. cbn [length]. lia.
+Qed.
+
+Lemma enc_delta_ge nb b s' l tl :
+  N.of_nat (length tl) + 2 < two64 ->
+  size_slim (enc nb ({| in_big := b; in_step := 0; in_labels := l |} :: tl)) <=
+  size_slim (enc nb ({| in_big := b; in_step := S s'; in_labels := l |} :: tl)).
+Proof.
+  intros Hlen. unfold enc. cbv zeta.
+  set (i := {| in_big := b; in_step := 0; in_labels := l |}).
+  set (i' := {| in_big := b; in_step := S s'; in_labels := l |}).
+  assert (big_count (i' :: tl) = big_count (i :: tl)) as -> by (unfold big_count, i, i'; cbn [filter in_big]; destruct b; reflexivity).
+  assert (forall n, cands (skipn n (i' :: tl)) = cands (skipn n (i :: tl))) as Hc by (intros [|n]; reflexivity).
+  rewrite Hc.
+  set (tbls := sorted_tbls (cands (skipn (big_count (i :: tl)) (i :: tl)))).
+  set (ss := find_short_size tbls). set (mu := most_used tbls ss).
+  assert (flat_map (node_bits ss mu) (i' :: tl) = flat_map (node_bits ss mu) (i :: tl)) as -> by reflexivity.
+  assert (map (fun i0 => match node_short mu i0 with Some _ => true | None => false end) (i' :: tl) =
+          map (fun i0 => match node_short mu i0 with Some _ => true | None => false end) (i :: tl)) as -> by reflexivity.
+  set (F := filter has_step tl). set (H := map has_step tl).
+  assert (filter has_step (i :: tl) = F) as -> by reflexivity.
+  assert (filter has_step (i' :: tl) = i' :: F) as -> by reflexivity.
+  assert (map has_step (i :: tl) = false :: H) as -> by reflexivity.
+  assert (map has_step (i' :: tl) = true :: H) as -> by reflexivity.
+  assert (N.of_nat (length H) + 2 < two64) as HlenH by (unfold H; rewrite map_length; exact Hlen).
+  pose proof (mk_bm_first_bit_ge H HlenH) as B1.
+  assert (length F <= length tl)%nat as HF.
+  { unfold F. rewrite length_filter, length_lsum. unfold lsum. clear. induction tl as [|x r IH]; cbn [map sum_list]; [lia|]. destruct (has_step x); lia. }
+  cbn [length flat_map]. unfold i' at 1. cbn [in_step enc_step app].
+  unfold size_slim. cbn [s_bigcnt s_shortsize s_nodetype s_inners s_shortbm s_shorttable s_innerpref s_leafpref s_leaves s_unk].
+  unfold sz_msg. repeat apply N.add_le_mono_r. apply N.add_le_mono_l.
+  apply sz_lenfield_mono. unfold size_vlen. cbn [vl_n vl_eltcnt vl_position vl_fixed vl_bytes vl_presence vl_unk].
+  unfold sz_msg.
+  pose proof (sz_int32_succ_ge 11 (length F) ltac:(lia)) as F1.
+  pose proof (sz_bytes_two_ge (byte_of_N (N.of_nat (S s') / 256)) (byte_of_N (N.of_nat (S s'))) (flat_map (fun i0 => enc_step (in_step i0)) F)) as F2.
+  pose proof (sz_lenfield_mono 61 _ _ B1) as F3.
+  lia.
+Qed.
+
+End Lower.
+
+Theorem prefix_never_shrinks o P keys T T' :
+  o_inner o = false -> o_leaf o = false ->
+  build o keys None = Ok T -> build o (map (app P) keys) None = Ok T' ->
+  (N.of_nat (length keys) < 67108864)%N ->
+  (marshal_size T <= marshal_size T')%N.
+Proof.
+  intros Hi Hlf HT HT' Hn.
+  destruct (prefix_same_tree o P keys T T' Hi Hlf HT HT') as (Hr & _).
+  unfold marshal_size, encode_trie. rewrite Hr.
+  destruct (t_root T) as [r|] eqn:Er; cbn [option_map]; [|lia].
+  destruct (built_counts _ _ _ _ HT Er) as (_ & _ & Hc).
+  destruct r as [id ord tail eidx|id big step pfx fc ch]; [cbn [bump_step]; lia|].
+  rewrite !encode_root_enc, nb_bump, inners_bump. unfold inner_count in Hc. rewrite inners_inner in Hc |- *.
+  cbn [length] in Hc.
+  set (nb := map is_inner (bfs (Inner id big step pfx fc ch))).
+  set (tl := flat_map inode_of (List.tl (bfs (Inner id big step pfx fc ch)))) in *.
+  destruct step as [|st].
+  - destruct (2 * length P) as [|k'] eqn:Ek.
+    + cbn [Nat.add]. lia.
+    + rewrite Nat.add_0_r.
+      pose proof (enc_delta_ge nb big k' (map fst ch) tl ltac:(unfold two64; lia)) as H. lia.
+  - rewrite (enc_size_step nb big (S st) (2 * length P + S st) (map fst ch) tl); [lia|].
+    destruct (Nat.eqb_spec (2 * length P + S st) 0); [lia|reflexivity].
+Qed.
